@@ -8,7 +8,7 @@ PID = 'C09'
 RULE = ('scan(accumulator, seed, reduce, terminator) and the operators defined through it (count, sum, mean, min, max, '
         'variance, to_list, batch, distinct_until_changed) with accumulators that mutate and return their accumulator '
         '(list append), seeds given as values and as factories, reduce on/off, terminator on/off, on 1-4 interleaved keys '
-        'with empty keys and slots reused by later lifetimes, and on plain observables. Oracle: Python left fold per '
+        'with empty keys and slots reused by later lifetimes, lifetimes ended by a mux error instead of a completion (key created again later), and on plain observables; values emitted by reduce are handed to a consumer that mutates them in place (nothing reachable from an emitted value may be the seed or another key\'s state). Oracle: Python left fold per '
         'lifetime (functools-style), evaluated independently for every lifetime with a fresh seed. non-trivial = >= 2 '
         'lifetimes with >= 2 items; distinct = distinct JSON')
 ASSUMPTIONS = ['accumulators return values of the seed type (typed state arrays); accumulators are total or raise']
@@ -51,12 +51,53 @@ def generate(rng, tier):
         if typ == muxgen.FLT and rng.random() < 0.5:
             # ints and floats mixed in one key
             trace = [(['n', e[1], enc(rng.randint(-2, 6))] if e[0] == 'n' and rng.random() < 0.5 else e) for e in trace]
-        cases.append({'ast': [node], 'trace': trace, 'plain': rng.random() < 0.3})
+        case = {'ast': [node], 'trace': trace, 'plain': rng.random() < 0.3}
+        if rng.random() < 0.2:
+            # lifetimes ended by a mux error instead of a completion (scan releases the key on both), the key
+            # created again later, often with no other key's item in between
+            if rng.random() < 0.5:
+                trace = muxgen.gen_trace(rng, typ, nkeys=rng.choice([1, 2]), bursts=True, max_items=rng.choice([None, 3]))
+            case['trace'] = error_ended(rng, trace)
+        cases.append(case)
     return cases
 
 
+def error_ended(rng, trace):
+    out = []
+    for j, e in enumerate(trace):
+        if e[0] == 'd' and rng.random() < 0.6 and any(f[0] == 'c' and f[1] == e[1] for f in trace[j + 1:]):
+            out.append(['e', e[1], rng.choice([1, 2, 3])])
+        else:
+            out.append(e)
+    return out
+
+
+def lifetimes_with_errors(trace):
+    """like muxprop.lifetime_positions, a mux error on the key ends the lifetime as a completion does"""
+    occ, cur = [], {}
+    for p, e in enumerate(trace):
+        k = tuple(e[1])
+        if e[0] == 'c':
+            cur[k] = {'key': list(k), 'items': [], 'pos': [], 'create': p, 'done': None, 'error': None}
+            occ.append(cur[k])
+        elif e[0] == 'n':
+            cur[k]['items'].append(e[2])
+            cur[k]['pos'].append(p)
+        elif e[0] == 'd':
+            cur[k]['done'] = p
+        elif e[0] == 'e':
+            cur[k]['error'] = p
+    return occ
+
+
+def reduces(node):
+    return (node[0] == 'scan' and bool(node[3])) or node[0] == 'to_list'
+
+
 def run_impl(case):
-    obs = muxlib.run_mux(case['ast'], case['trace'])
+    # final values (reduce) are handed to a consumer that mutates them in place: the seed and the state of
+    # other keys and lifetimes must not be reachable from an emitted value
+    obs = muxlib.run_mux(case['ast'], case['trace'], mutate_emitted=reduces(case['ast'][0]))
     if case['plain']:
         obs['plain'] = []
         for _, items in muxgen.lifetimes_of(case['trace'])[:3]:
@@ -153,11 +194,16 @@ def oracle(case, obs):
     node = case['ast'][0]
     if node[0] == 'mean' and node[2]:
         return None
-    for lt in muxprop.lifetime_positions(case['trace']):
+    for lt in lifetimes_with_errors(case['trace']):
         xs = [dec(x) for x in lt['items']]
         if node[0] == 'mean' and not xs:
             continue
         per, fin = fold_spec(node, xs)
+        if lt['error'] is not None:
+            got = [dec(o[2]) for o in obs['steps'][lt['error']] if o[0] == 'n']
+            if got:
+                return {'sig': 'scan:%s:error-end' % node[0], 'what': '%s key %s: %s emitted when the lifetime ended with a mux '
+                        'error' % (json.dumps(node)[:80], lt['key'], got)}
         for i, p in enumerate(lt['pos']):
             got = [dec(o[2]) for o in obs['steps'][p] if o[0] == 'n']
             if len(got) != len(per[i]) or not all(close(g, w) for g, w in zip(got, per[i])):
